@@ -73,7 +73,7 @@ func checkDeadline(dc DeadlineCase) (string, string) {
 	}
 	op := &runtime.ClientOperation{ID: "d", Method: "GET", PathPattern: "/", Schemes: []string{"http"}, Context: opCtx,
 		Params: runtime.ClientRequestWriterFunc(func(req runtime.ClientRequest, _ strfmt.Registry) error {
-			if dc.TimeoutMS >= 0 {
+			if dc.TimeoutMS >= 0 || dc.TimeoutMS < -1 {
 				return req.SetTimeout(time.Duration(dc.TimeoutMS) * time.Millisecond)
 			}
 			return nil
@@ -87,13 +87,17 @@ func checkDeadline(dc DeadlineCase) (string, string) {
 		if err != nil && dc.CallerMS > 0 && time.Now().After(callerDeadline) {
 			return "", "not sent: caller deadline already passed"
 		}
+		// ... and so may a negative request timeout: its deadline passed before the call started
+		if err != nil && dc.TimeoutMS < -1 {
+			return "", "not sent: negative request timeout"
+		}
 		return "deadline/not-sent", fmt.Sprintf("request never reached the transport: %v", err)
 	}
 	timeout := time.Duration(dc.TimeoutMS) * time.Millisecond
-	if dc.TimeoutMS < 0 {
+	if dc.TimeoutMS == -1 {
 		timeout = client.DefaultTimeout
 	}
-	hasT, hasD := timeout > 0, dc.CallerMS > 0
+	hasT, hasD := timeout != 0, dc.CallerMS > 0 // a negative timeout is a deadline in the past, not "no timeout"
 	if !hasT && !hasD {
 		if tr.has {
 			return "deadline/unexpected-deadline", fmt.Sprintf("no timeout and no caller deadline, yet the request context expires at %v", tr.deadline)
